@@ -56,14 +56,17 @@ Proof. exact interleaving_sequential. Qed.
 Print Assumptions C18_interleaving_sequential.
 
 (* The translator's own reading of the source (Gen/Funcs.v, regenerated on every run): of the 111 translated functions,
-   the only methods that write through their receiver are decoders (Unmarshal / unmarshal).  Every translated Marshal,
+   the only methods that write through their receiver are decoders (Unmarshal / unmarshal) and the XR blocks' setupBlockHeader / unpackBlockHeader.  Every translated Marshal,
    MarshalSize, Header, DestinationSSRC, Len, Validate and CNAME is therefore, as Go text, a function of the packet's
    value that leaves it unchanged (its rendering takes the receiver by value and returns no new receiver).  A change that
    makes one of them assign through its receiver moves it into this list and the obligation fails. *)
 From RTCP Require Import Gen.Funcs.
 Definition is_decoder_name (k : string) : bool :=
   let n := String.length k in
-  String.eqb (String.substring (n - 9) 9 k) "Unmarshal" || String.eqb (String.substring (n - 9) 9 k) "unmarshal".
+  String.eqb (String.substring (n - 9) 9 k) "Unmarshal" || String.eqb (String.substring (n - 9) 9 k) "unmarshal"
+  (* the XR blocks' header bookkeeping: setupBlockHeader is the documented exception (called by ExtendedReport.Marshal),
+     unpackBlockHeader is called by ExtendedReport.Unmarshal *)
+  || String.eqb (String.substring (n - 11) 11 k) "BlockHeader".
 Theorem C18_source_only_decoders_write_their_receiver : forallb is_decoder_name receiver_writing_methods = true.
 Proof. vm_compute. reflexivity. Qed.
 Print Assumptions C18_source_only_decoders_write_their_receiver.
